@@ -29,6 +29,7 @@ const (
 	vSym // symbolic integer (e.g. the rune returned by Peek())
 	vNil
 	vZeroStruct // a struct variable declared without initialiser: unassigned fields read as zero
+	vStruct     // a struct value with tracked fields (F)
 )
 
 type Val struct {
@@ -37,6 +38,7 @@ type Val struct {
 	B   bool
 	S   string
 	Sym string
+	F   map[string]Val // vStruct: field values by field name (never mutated in place)
 }
 
 func (v Val) String() string {
@@ -51,8 +53,44 @@ func (v Val) String() string {
 		return "$" + v.Sym
 	case vNil:
 		return "nil"
+	case vStruct:
+		var ks []string
+		for k := range v.F {
+			ks = append(ks, k)
+		}
+		sort.Strings(ks)
+		var sb strings.Builder
+		sb.WriteString("{")
+		for _, k := range ks {
+			sb.WriteString(k + ":" + v.F[k].String() + ",")
+		}
+		return sb.String() + "}"
 	}
 	return "?"
+}
+
+// zeroOf: the zero value of a type as far as it is tracked (basic kinds and structs of them)
+func zeroOf(t types.Type) Val {
+	switch u := t.Underlying().(type) {
+	case *types.Basic:
+		switch {
+		case u.Info()&types.IsInteger != 0:
+			return intVal(0)
+		case u.Info()&types.IsBoolean != 0:
+			return boolVal(false)
+		case u.Info()&types.IsString != 0:
+			return Val{K: vStr}
+		}
+	case *types.Struct:
+		f := map[string]Val{}
+		for i := 0; i < u.NumFields(); i++ {
+			f[u.Field(i).Name()] = zeroOf(u.Field(i).Type())
+		}
+		return Val{K: vStruct, F: f}
+	case *types.Pointer, *types.Interface, *types.Slice, *types.Map, *types.Signature, *types.Chan:
+		return Val{K: vNil}
+	}
+	return Val{}
 }
 
 func intVal(i int64) Val { return Val{K: vInt, I: i} }
@@ -179,6 +217,13 @@ func (pe *PE) eval(st *peState, e ast.Expr) Val {
 		}
 		return Val{}
 	case *ast.SelectorExpr:
+		if base, ok := ast.Unparen(x.X).(*ast.Ident); ok {
+			if o := pe.info.Uses[base]; o != nil {
+				if bv, ok := st.env[o]; ok && bv.K == vStruct {
+					return bv.F[x.Sel.Name]
+				}
+			}
+		}
 		if v, ok := st.sel[pe.selKey(x)]; ok {
 			return v
 		}
@@ -288,6 +333,19 @@ func (pe *PE) eval(st *peState, e ast.Expr) Val {
 			}
 			return Val{K: vStr, S: sb.String()}
 		}
+		if stt, ok := pe.info.TypeOf(x).Underlying().(*types.Struct); ok {
+			v := zeroOf(stt)
+			for i, el := range x.Elts {
+				if kv, ok := el.(*ast.KeyValueExpr); ok {
+					if id, ok := kv.Key.(*ast.Ident); ok {
+						v.F[id.Name] = pe.eval(st, kv.Value)
+					}
+				} else if i < stt.NumFields() {
+					v.F[stt.Field(i).Name()] = pe.eval(st, el)
+				}
+			}
+			return v
+		}
 		return Val{}
 	case *ast.IndexExpr:
 		// constant map literal lookup, e.g. quoteMatchMap[sch]
@@ -298,6 +356,13 @@ func (pe *PE) eval(st *peState, e ast.Expr) Val {
 					return intVal(v)
 				}
 				return intVal(0)
+			}
+		}
+		// element of a known rune sequence
+		if _, isSlice := pe.info.TypeOf(x.X).Underlying().(*types.Slice); isSlice {
+			b, k := pe.eval(st, x.X), pe.eval(st, x.Index)
+			if rs := []rune(b.S); b.K == vStr && k.K == vInt && k.I >= 0 && k.I < int64(len(rs)) && rs[k.I] != unknownRune {
+				return intVal(int64(rs[k.I]))
 			}
 		}
 		return Val{}
@@ -652,6 +717,19 @@ func (pe *PE) assign(st *peState, lhs ast.Expr, v Val) {
 			st.env[o] = v
 		}
 	case *ast.SelectorExpr:
+		if base, ok := ast.Unparen(x.X).(*ast.Ident); ok {
+			if o := pe.info.Uses[base]; o != nil {
+				if bv, ok := st.env[o]; ok && bv.K == vStruct {
+					f := map[string]Val{}
+					for k, fv := range bv.F {
+						f[k] = fv
+					}
+					f[x.Sel.Name] = v
+					st.env[o] = Val{K: vStruct, F: f}
+					return
+				}
+			}
+		}
 		st.sel[pe.selKey(x)] = v
 	}
 }
@@ -752,6 +830,16 @@ func (pe *PE) execStmt(st *peState, s ast.Stmt) []Outcome {
 					pe.assign(st, l, vals[i])
 				}
 			} else {
+				// tuple assignment from a helper of the package that yields its results on a single path
+				if call, ok := ast.Unparen(x.Rhs[0]).(*ast.CallExpr); ok && len(x.Rhs) == 1 {
+					if vals, ok := pe.inlineCallN(st, call); ok && len(vals) == len(x.Lhs) {
+						st.effects = append(st.effects, pe.callID(call))
+						for i, l := range x.Lhs {
+							pe.assign(st, l, vals[i])
+						}
+						return next(st)
+					}
+				}
 				// tuple assignment from a call: all unknown (oracle may have observed the call)
 				for _, r := range x.Rhs {
 					if call, ok := ast.Unparen(r).(*ast.CallExpr); ok {
@@ -835,6 +923,44 @@ func (pe *PE) execStmt(st *peState, s ast.Stmt) []Outcome {
 	case *ast.ForStmt:
 		return pe.execFor(st, x)
 	case *ast.RangeStmt:
+		// over a known text: one pass per character
+		if seq := pe.eval(st, x.X); seq.K == vStr && !strings.ContainsRune(seq.S, unknownRune) && len(seq.S) <= 64 {
+			_, isString := pe.info.TypeOf(x.X).Underlying().(*types.Basic)
+			var out []Outcome
+			cur := []*peState{st}
+			n := 0
+			for off, ch := range seq.S {
+				idx := int64(n)
+				if isString {
+					idx = int64(off)
+				}
+				n++
+				var nextCur []*peState
+				for _, s0 := range cur {
+					if x.Key != nil {
+						pe.assign(s0, x.Key, intVal(idx))
+					}
+					if x.Value != nil {
+						pe.assign(s0, x.Value, intVal(int64(ch)))
+					}
+					for _, o := range pe.exec(s0, x.Body.List) {
+						switch {
+						case o.Kind == "next" || (o.Kind == "continue" && o.Label == ""):
+							nextCur = append(nextCur, o.St)
+						case o.Kind == "break" && o.Label == "":
+							out = append(out, Outcome{Kind: "next", St: o.St})
+						default:
+							out = append(out, o)
+						}
+					}
+				}
+				cur = nextCur
+			}
+			for _, s0 := range cur {
+				out = append(out, Outcome{Kind: "next", St: s0})
+			}
+			return out
+		}
 		// a nested range loop inside a machine body: havoc what it assigns
 		pe.havoc(st, x.Body)
 		return next(st)
@@ -1089,6 +1215,20 @@ func findMachineLoop(fn *ast.FuncDecl) (body *ast.BlockStmt, loop ast.Stmt) {
 // goto of the function targets (label names are not relied upon)
 func stmtsAfterLabel(fn *ast.FuncDecl, label string) []ast.Stmt {
 	if label == "" {
+		label = exitLabelOf(fn)
+	}
+	for i, s := range fn.Body.List {
+		if ls, ok := s.(*ast.LabeledStmt); ok && label != "" && ls.Label.Name == label {
+			return append([]ast.Stmt{ls.Stmt}, fn.Body.List[i+1:]...)
+		}
+	}
+	return nil
+}
+
+// exitLabelOf: the first top-level label of the function that a goto targets
+func exitLabelOf(fn *ast.FuncDecl) string {
+	label := ""
+	{
 		targets := map[string]bool{}
 		ast.Inspect(fn, func(n ast.Node) bool {
 			if b, ok := n.(*ast.BranchStmt); ok && b.Tok == token.GOTO && b.Label != nil {
@@ -1103,12 +1243,7 @@ func stmtsAfterLabel(fn *ast.FuncDecl, label string) []ast.Stmt {
 			}
 		}
 	}
-	for i, s := range fn.Body.List {
-		if ls, ok := s.(*ast.LabeledStmt); ok && ls.Label.Name == label {
-			return append([]ast.Stmt{ls.Stmt}, fn.Body.List[i+1:]...)
-		}
-	}
-	return nil
+	return label
 }
 
 func outcomeKey(o Outcome) string {
@@ -1137,13 +1272,22 @@ func joinAssumed(st *peState) string { return strings.Join(st.assumed, " && ") }
 // inlineCall evaluates a call of a plain function of the analysed package (a helper split off the analysed
 // function) on the argument values: the helper must return exactly one value on a single path
 func (pe *PE) inlineCall(st *peState, call *ast.CallExpr) (Val, bool) {
-	f := calleeFunc(pe.info, call)
-	if f == nil || f.Pkg() == nil || pe.inlineDepth >= 3 {
+	vals, ok := pe.inlineCallN(st, call)
+	if !ok || len(vals) != 1 || vals[0].K == 0 {
 		return Val{}, false
 	}
+	return vals[0], true
+}
+
+// inlineCallN: the same for any number of results
+func (pe *PE) inlineCallN(st *peState, call *ast.CallExpr) ([]Val, bool) {
+	f := calleeFunc(pe.info, call)
+	if f == nil || f.Pkg() == nil || pe.inlineDepth >= 3 {
+		return nil, false
+	}
 	sig, _ := f.Type().(*types.Signature)
-	if sig == nil || sig.Recv() != nil || sig.Results().Len() != 1 || sig.Variadic() {
-		return Val{}, false
+	if sig == nil || sig.Recv() != nil || sig.Results().Len() == 0 || sig.Variadic() {
+		return nil, false
 	}
 	var fd *ast.FuncDecl
 	for _, p := range pe.u.Pkgs {
@@ -1159,7 +1303,7 @@ func (pe *PE) inlineCall(st *peState, call *ast.CallExpr) (Val, bool) {
 		}
 	}
 	if fd == nil || fd.Body == nil {
-		return Val{}, false
+		return nil, false
 	}
 	st2 := newState()
 	i := 0
@@ -1179,10 +1323,16 @@ func (pe *PE) inlineCall(st *peState, call *ast.CallExpr) (Val, bool) {
 	pe.inlineDepth--
 	failed := pe.failed != savedFailed
 	pe.failed, pe.oracle = savedFailed, savedOracle
-	if failed || len(outs) != 1 || outs[0].Kind != "return" || len(outs[0].RetV) != 1 || outs[0].RetV[0].K == 0 {
-		return Val{}, false
+	if failed || len(outs) != 1 || outs[0].Kind != "return" || len(outs[0].RetV) != sig.Results().Len() {
+		return nil, false
 	}
-	return outs[0].RetV[0], true
+	known := false
+	for _, v := range outs[0].RetV {
+		if v.K != 0 {
+			known = true
+		}
+	}
+	return outs[0].RetV, known
 }
 
 // ---- name-independent identification of locals (roles)
@@ -1509,4 +1659,75 @@ func selfAppendedLocal(info *types.Info, node ast.Node) types.Object {
 // selKey: the key under which a selector lvalue is tracked; the field is named by its listed name
 func (pe *PE) selKey(x *ast.SelectorExpr) string {
 	return types.ExprString(x.X) + "." + astFieldName(pe.info, x.Sel)
+}
+
+// elementLoop: the loop visits the elements of a sequence one by one, front to back: `for _, ch := range X` or its
+// index form `for i := 0; i < len(X); i++ { ch := X[i]; … }` (i not assigned in the body). Returns the body without
+// the element binding, and the element variable.
+func elementLoop(info *types.Info, loop ast.Stmt) (*ast.BlockStmt, types.Object) {
+	switch x := loop.(type) {
+	case *ast.RangeStmt:
+		if x.Value == nil {
+			return nil, nil
+		}
+		return x.Body, identObj(info, x.Value)
+	case *ast.ForStmt:
+		init, ok := x.Init.(*ast.AssignStmt)
+		if !ok || init.Tok != token.DEFINE || len(init.Lhs) != 1 || len(init.Rhs) != 1 {
+			return nil, nil
+		}
+		iObj := identObj(info, init.Lhs[0])
+		if v := constVal(info, init.Rhs[0]); iObj == nil || v == nil || v.String() != "0" {
+			return nil, nil
+		}
+		cond, ok := x.Cond.(*ast.BinaryExpr)
+		if !ok || cond.Op != token.LSS || identObj(info, cond.X) != iObj {
+			return nil, nil
+		}
+		lenCall, ok := ast.Unparen(cond.Y).(*ast.CallExpr)
+		if !ok || len(lenCall.Args) != 1 {
+			return nil, nil
+		}
+		if id, ok := lenCall.Fun.(*ast.Ident); !ok || id.Name != "len" {
+			return nil, nil
+		}
+		seq := types.ExprString(lenCall.Args[0])
+		post, ok := x.Post.(*ast.IncDecStmt)
+		if !ok || post.Tok != token.INC || identObj(info, post.X) != iObj {
+			return nil, nil
+		}
+		if len(x.Body.List) == 0 {
+			return nil, nil
+		}
+		bind, ok := x.Body.List[0].(*ast.AssignStmt)
+		if !ok || bind.Tok != token.DEFINE || len(bind.Lhs) != 1 || len(bind.Rhs) != 1 {
+			return nil, nil
+		}
+		ix, ok := ast.Unparen(bind.Rhs[0]).(*ast.IndexExpr)
+		if !ok || types.ExprString(ix.X) != seq || identObj(info, ix.Index) != iObj {
+			return nil, nil
+		}
+		rest := &ast.BlockStmt{Lbrace: x.Body.Lbrace, List: x.Body.List[1:], Rbrace: x.Body.Rbrace}
+		assigned := false
+		ast.Inspect(rest, func(n ast.Node) bool {
+			switch y := n.(type) {
+			case *ast.AssignStmt:
+				for _, l := range y.Lhs {
+					if identObj(info, l) == iObj {
+						assigned = true
+					}
+				}
+			case *ast.IncDecStmt:
+				if identObj(info, y.X) == iObj {
+					assigned = true
+				}
+			}
+			return true
+		})
+		if assigned {
+			return nil, nil
+		}
+		return rest, identObj(info, bind.Lhs[0])
+	}
+	return nil, nil
 }
